@@ -146,6 +146,8 @@ class Check(BaseCheck):
             ok = exp[0] == 'err' and exp[1] == r['error']
         else:
             ok = exp[0] != 'err' and self.matches(exp, got)
+            if ok and exp[0] == 'num' and op in '+-*' and all(isinstance(x, int) and not isinstance(x, bool) for x in (a, b)):
+                ok = Fr(got) == exp[1]          # integer arithmetic is exact, also beyond 2**53
         if not ok:
             rec.violation('C06/%s:%s-%s:expected-%s' % (op, GV.broad_class(a), GV.broad_class(b), exp[0] if exp[0] != 'err' else exp[1]),
                           formula=f, a=a, b=b, record=r, expected=exp, injected=how)
